@@ -1146,7 +1146,9 @@ class Converter:
             # Ideally, live_out should never be None here. But handle this conditionally
             # due to some existing usage.
             live_def_set = live_out.intersection(live_def_set)
-        live_defs = list(live_def_set)
+        # Sort: iteration order of a set of str depends on PYTHONHASHSEED, and this list decides
+        # the order of the If outputs and the names generated for them.
+        live_defs = sorted(live_def_set)
         test = self._translate_expr(stmt.test, "cond")
         lineno = self._source_of(stmt).lineno
         then_graph = self._translate_block(stmt.body, f"thenGraph_{lineno}", live_defs)
@@ -1234,9 +1236,10 @@ class Converter:
         vars_def_in_loop = self.analyzer.assigned_vars(loop_stmt.body)
         live_out = self.analyzer.live_out(loop_stmt)
         assert live_out is not None, "live_out cannot be None here."
-        loop_state_vars = vars_def_in_loop.intersection(exposed_uses | live_out)
-        scan_outputs = set()  # TODO
-        outputs = list(loop_state_vars | scan_outputs)
+        # One ordered list is used for the loop inputs, the body parameters, the body
+        # outputs and the loop outputs alike.
+        loop_state_vars = sorted(vars_def_in_loop.intersection(exposed_uses | live_out))
+        outputs = list(loop_state_vars)
 
         # loop-condition:
         # o_loop_condition = self._emit_const(True, "true", self._source_of(loop_stmt))
@@ -1399,7 +1402,7 @@ class Converter:
         self._enter_scope(fn.name, fn)
         self._translate_function_def_common(fn)
         function_ir = self._exit_scope()
-        outer_scope_vars = self.analyzer.outer_scope_variables(fn)
+        outer_scope_vars = sorted(self.analyzer.outer_scope_variables(fn))
         function_ir.outer_scope_variables = [
             (var, self._lookup(var, self._source_of(fn))) for var in outer_scope_vars
         ]
